@@ -149,6 +149,9 @@ func Gen(prop string, r *sim.Rand, tier string) sim.Script {
 			for g := []int{0, 1, 2, 2}[r.Intn(4)]; g > 0; g-- {
 				s.Ops = append(s.Ops, WOp{K: "gc"})
 			}
+			if r.Chance(1, 4) {
+				s.Ops = append(s.Ops, WOp{K: "setroot", N: r.Intn(12)})
+			}
 			if r.Chance(1, 3) {
 				s.Ops = append(s.Ops, WOp{K: "rollback", N: r.Intn(2)})
 			}
@@ -223,7 +226,7 @@ func Gen(prop string, r *sim.Rand, tier string) sim.Script {
 		case 5:
 			s.Ops = append(s.Ops, WOp{K: "gc"})
 		case 6:
-			s.Ops = append(s.Ops, WOp{K: "reload"})
+			s.Ops = append(s.Ops, WOp{K: "reload", N: r.Intn(16)})
 		case 7:
 			s.Ops = append(s.Ops, WOp{K: "crash", N: r.Intn(1000)})
 		case 8:
@@ -283,7 +286,7 @@ func Gen(prop string, r *sim.Rand, tier string) sim.Script {
 		case 1:
 			s.Ops = append(s.Ops, WOp{K: "commit", N: r.Intn(5), Sync: true})
 		default:
-			s.Ops = append(s.Ops, WOp{K: "commit", N: r.Intn(5), Sync: true}, WOp{K: "reload"})
+			s.Ops = append(s.Ops, WOp{K: "commit", N: r.Intn(5), Sync: true}, WOp{K: "reload", N: r.Intn(16)})
 		}
 		s.Ops = append(s.Ops, WOp{K: "prove", N: r.Intn(1 << 20)})
 		kinds := []string{"reweight", "zero", "swaphash", "swapchild", "subst", "drop", "dup", "reorder", "trunc", "flip", "shortw", "valw", "block", "retype"}
@@ -311,7 +314,7 @@ func Gen(prop string, r *sim.Rand, tier string) sim.Script {
 		case 1:
 			s.Ops = append(s.Ops, WOp{K: "commit", N: r.Intn(5), Sync: true})
 		case 2:
-			s.Ops = append(s.Ops, WOp{K: "commit", N: r.Intn(5), Sync: true}, WOp{K: "reload"})
+			s.Ops = append(s.Ops, WOp{K: "commit", N: r.Intn(5), Sync: true}, WOp{K: "reload", N: r.Intn(16)})
 		default:
 			s.Ops = append(s.Ops, WOp{K: "commit", N: r.Intn(5), Sync: true}, WOp{K: "gc"})
 		}
